@@ -8,6 +8,21 @@ VERIF = os.path.join(os.path.dirname(os.path.abspath(__file__)), "..")
 TECH = "deterministic simulation with fault injection: seeded search over multi-contract histories on a cw-multi-test chain, faults injected at the chain/contract link, oracles as monitors over the event log"
 
 CLAIMED = {
+    "C02": dict(
+        text="Seeded histories over worlds of 2-4 dispatch-family contracts (14 programs: 0..3 interfaces, generic contract, same name in several kinds, digit names, StdError and own error types; generated impl Contract and generated entry points): instantiate / exec / query / sudo / migrate from several senders with funds, nested calls between contracts (so contracts are senders too), scripted failures at any depth, block jumps. Per delivery the monitor requires exactly one handler entry = the addressed one, every argument under its own name, the context echo (sender, funds, block, contract address, storage sentinel, querier-read balance, api probe) equal to the link's own view, and the chain to receive the handler's own response / error (as the declared error type) / query encoding. Exploration level.",
+        ref="DESIGN.md section 4 C02",
+        note="argument values from a closed type set; nested documents are attributed to handlers by SPEC + the owning part's own reading; handler names of regular shape only (wire name = method name)",
+    ),
+    "C03": dict(
+        text="Wire-fault injection: well-formed documents of every part are damaged in flight (unknown / foreign / other-kind names, zero / two / duplicated keys, non-objects, truncation, bit flips, removed / added / retyped / duplicated fields, padding) and delivered through the chain between normal transactions. Differential oracle on the real part types asked about the delivered bytes: exactly one part accepts => the wrapper accepts, re-encodes identically and the method that part decoded runs; no part accepts => decode error, no handler entry, state digest unchanged, unknown name => error lists exactly the SPEC's names; never a panic. Exploration level; three classes of genuine deviations are listed in known_findings.txt.",
+        ref="DESIGN.md section 4 C03",
+        note="part types are the generated plain serde enums (trusted as the definition of what a part accepts); includes irregular names (leading / repeated underscores)",
+    ),
+    "C04": dict(
+        text="Mis-delivery fault: well-formed documents of kind K1 (and Reply-shaped JSON) delivered to the entry point of kind K2 for all ordered pairs over instantiate / execute / query / sudo / migrate / reply (reply via the payload of a hand-made sub-message), biased to programs where the same name and shape exist in several kinds; plus normal traffic. Global invariant on every delivery of every run: a handler entered under a delivery to entry point k is a handler annotated k. Exploration level.",
+        ref="DESIGN.md section 4 C04",
+        note="both deployment flavours (generated impl Contract, generated entry points); the chain's own sudo / migrate / execute paths",
+    ),
     "C07": dict(
         text="Seeded simulation of worlds of reply-table contracts (every coverage shape, declaration order, payload signature; 12 programs) calling each other through sub-messages whose callee is told to succeed or fail; gas_used/events/msg_responses injected at the link; hand-made sub-messages with unknown ids and uncovered outcomes. Per reply delivery the monitor requires exactly the declared method (or the pass-through / unknown-id behaviour) with the delivered context values. Exploration: a clean batch is evidence over the sampled histories, not proof.",
         ref="DESIGN.md section 4 C07",
@@ -38,9 +53,6 @@ NA = {
 }
 
 PENDING = {
-    "C02": "check under construction in this session (dispatch monitor over family f1 worlds); not claimed until it runs clean",
-    "C03": "check under construction in this session (wire-fault injection vs. part types); not claimed until it runs clean",
-    "C04": "check under construction in this session (mis-delivery matrix); not claimed until it runs clean",
     "C06": "check under construction in this session (entry-point twin world); not claimed until it runs clean",
     "C10": "check under construction in this session (remote helpers across contracts); not claimed until it runs clean",
     "C11": "check under construction in this session (custom chain bridge); not claimed until it runs clean",
